@@ -1,3 +1,4 @@
+import errno
 import os
 import pathlib
 import signal
@@ -136,9 +137,15 @@ class RunTaskExecutable(Operation):
             # Send SIGTERM to the entire process group (i.e., the subprocess
             # and its child processes).
             if process is not None:
-                group_id = os.getpgid(process.pid)
-                if group_id >= 0:
-                    os.killpg(group_id, signal.SIGTERM)
+                try:
+                    group_id = os.getpgid(process.pid)
+                    if group_id >= 0:
+                        os.killpg(group_id, signal.SIGTERM)
+                except OSError as ex:
+                    # The process may have already exited (and been reaped by
+                    # the SIGCHLD handler); there is nothing left to signal.
+                    if ex.errno != errno.ESRCH and ex.errno != errno.ECHILD:
+                        raise
             if self._record_output:
                 ctx.tee_processor.shutdown()
             raise
